@@ -58,7 +58,7 @@ func TestC15(t *testing.T) {
 			}
 		case "TypeEnc":
 			c.Block = rapid.IntRange(0, 2).Draw(t, "struct")
-			c.Scrib = rapid.IntRange(0, 1).Draw(t, "bigendian")
+			c.Scrib = rapid.IntRange(0, 1).Draw(t, "bigendian") | rapid.IntRange(0, 1).Draw(t, "pointer")<<1 | rapid.IntRange(0, 3).Draw(t, "ctor")<<2
 			n := rapid.IntRange(1, 6).Draw(t, "n")
 			for i := 0; i < n; i++ {
 				c.Vals = append(c.Vals, Hex(rapid.SliceOfN(rapid.Byte(), 0, 56).Draw(t, "fields")))
